@@ -64,13 +64,61 @@ def syms_to_pattern(syms, M):
     return x
 
 
-def container_forms(bits, with_dtypes=True):
-    """every accepted container type holding the same 0/1 sequence"""
+# Separators of the library's string format.  Source: the docstring of `opticomlib.utils.str2array` ("Use comma (,) or
+# whitespace ( ) as element separators ...  For binary numbers ... sequence don't need to be separated by commas or spaces
+# although it is allowed", special case '1 0 1 10' -> [1,0,1,1,0]) and the docstrings of HDD / binary_sequence, which write
+# codewords as '0100 0111 0000'.  Only the blank and the comma are used: other whitespace (tab, newline) matches the
+# parser's regular expression but is not removed by it, and ';' starts a new ROW (2-D array) - neither is an accepted
+# spelling of a 1-D bit sequence, so neither is asserted.
+SEPARATORS = (('space', ' '), ('comma', ','), ('comma+space', ', '), ('2spaces', '  '), ('space+comma', ' ,'))
+
+
+CORE_SPELLINGS = ('str', 'str+sep:space/element', 'str+sep:comma/element', 'str+sep:comma+space/element', 'str+sep:space/group')
+
+
+def string_spellings(bits, group=None):
+    """every spelling of the 0/1 sequence `bits` in the library's string format: separator-free, each separator between
+    all elements, each separator between groups of `group` elements (symbols / bit blocks), and blank-padded variants.
+    Pure (no library call): the denoted sequence is `bits` by construction.  Spellings that coincide as strings (e.g. a
+    one-element sequence) are listed once, under the simplest name.  '' is not an accepted string form
+    (binary_sequence('') raises as well), so an empty sequence has no spelling."""
+    s = [str(int(b)) for b in bits]
+    if not s:
+        return {}
+    out = {'str': ''.join(s)}
+    have = {out['str']}
+
+    def add(name, text):
+        if text not in have:
+            have.add(text)
+            out[name] = text
+
+    chunks = None
+    if group and group > 1 and len(s) > group:
+        chunks = [''.join(s[i:i + group]) for i in range(0, len(s), group)]
+    for name, sep in SEPARATORS:
+        add(f'str+sep:{name}/element', sep.join(s))
+        if chunks:
+            add(f'str+sep:{name}/group', sep.join(chunks))
+    add('str+sep:padded', ' ' + out['str'] + ' ')
+    add('str+sep:padded+space/element', ' ' + ' '.join(s) + ' ')
+    if chunks:
+        add('str+sep:padded+comma+space/group', ' ' + ', '.join(chunks) + ' ')
+    return out
+
+
+def container_forms(bits, with_dtypes=True, group=None, strings='all'):
+    """every accepted container type holding the same 0/1 sequence.  `group`: block size of the grouped string
+    spellings (M for slot sequences, log2 M for bit sequences); strings: 'all' = every spelling, 'core' = the separator-free
+    string + blank / comma / comma+blank between elements + blank between groups (CORE_SPELLINGS), 'plain' = no separators."""
     from opticomlib.typing import binary_sequence
     bits = [int(b) for b in bits]
     f = {}
-    if bits:                      # '' is not an accepted string form (binary_sequence('') raises as well)
-        f['str'] = ''.join(map(str, bits))
+    sp = string_spellings(bits, group)
+    if strings != 'all':
+        keep = CORE_SPELLINGS if strings == 'core' else ('str',)
+        sp = {k: t for k, t in sp.items() if k in keep}
+    f.update(sp)
     f['list'] = list(bits)
     f['tuple'] = tuple(bits)
     f['ndarray:uint8'] = np.array(bits, dtype=np.uint8)
@@ -79,7 +127,19 @@ def container_forms(bits, with_dtypes=True):
         f['ndarray:int64'] = np.array(bits, dtype=np.int64)
         f['ndarray:float64'] = np.array(bits, dtype=np.float64)
     f['binary_sequence'] = binary_sequence(list(bits))
+    # the spelling of the library's own docstrings (HDD(binary_sequence('0100 0111 0000'), 4)): object built from a string
+    for k in ('str+sep:space/group', 'str+sep:space/element', 'str'):
+        if k in sp:
+            f[f'binary_sequence(<{k}>)'] = binary_sequence(sp[k])
+            break
     return f
+
+
+def form_family(name):
+    """violation-key suffix of a container form: 'str', 'str+sep', 'list', 'ndarray', 'binary_sequence', 'binary_sequence(str)'"""
+    if name.startswith('binary_sequence('):
+        return 'binary_sequence(str)'
+    return name.split(':')[0]
 
 
 def data_of(y):
@@ -122,28 +182,28 @@ def check_encoder_output(bits, M, out, v, tag):
     return vals
 
 
-def enc_dec_one(bits, M, v, with_dtypes=True):
+def enc_dec_one(bits, M, v, with_dtypes=True, strings='all'):
     """runs every container form of `bits` through encoder and decoder; returns canonical observation"""
     from opticomlib.ppm import PPM_ENCODER, PPM_DECODER
     trunc, cw = ref_encode(bits, M)
     obs = []
     base = None
-    for name, obj in container_forms(bits, with_dtypes).items():
+    for name, obj in container_forms(bits, with_dtypes, group=log2i(M), strings=strings).items():
         y = PPM_ENCODER(obj, M)
-        fam = name.split(':')[0]
+        fam = form_family(name)
         vals = as_int_list(data_of(y)[0])
         if base is None:
             base = vals
             check_encoder_output(bits, M, y, v, f'form={name}')
         elif vals != base:
             v.append((f'ENC:container-forms-differ:{fam}',
-                      f'bits={bits} M={M}: form {name} gives {vals}, first form gives {base}'))
+                      f'bits={bits} M={M}: form {name} = {obj!r:.200} gives {vals}, first form gives {base}'))
         obs.append(tuple(vals))
     # decoder on the reference codeword (independent of the encoder) in every container form
     dbase = None
-    for name, obj in container_forms(cw, with_dtypes).items():
+    for name, obj in container_forms(cw, with_dtypes, group=M, strings=strings).items():
         z = PPM_DECODER(obj, M)
-        fam = name.split(':')[0]
+        fam = form_family(name)
         a, tname = data_of(z)
         vals = as_int_list(a)
         if dbase is None:
@@ -154,7 +214,7 @@ def enc_dec_one(bits, M, v, with_dtypes=True):
                 v.append(('DEC:codeword->bits', f'M={M}: PPM_DECODER({cw}) = {vals}, expected big-endian bits {trunc}'))
         elif vals != dbase:
             v.append((f'DEC:container-forms-differ:{fam}',
-                      f'codeword={cw} M={M}: form {name} gives {vals}, first form gives {dbase}'))
+                      f'codeword={cw} M={M}: form {name} = {obj!r:.200} gives {vals}, first form gives {dbase}'))
         obs.append(tuple(vals))
     # round trip through the real encoder's own output object
     y = PPM_ENCODER(container_forms(bits, False)['ndarray:uint8'], M)
@@ -167,29 +227,30 @@ def enc_dec_one(bits, M, v, with_dtypes=True):
 
 
 def enc_case(case):
-    """case = ('enc', M, L, value): the bit string = L-digit big-endian binary of value"""
-    _, M, L, value = case
+    """case = ('enc', M, L, value, strings): the bit string = L-digit big-endian binary of value; strings = which string
+    spellings join the container forms (see container_forms)"""
+    _, M, L, value, strings = case
     bits = [(value >> (L - 1 - i)) & 1 for i in range(L)]
     v = Viol()
-    obs = enc_dec_one(bits, M, v)
+    obs = enc_dec_one(bits, M, v, strings=strings)
     nt = (M, L, value) if L >= log2i(M) else False
     return res(viol=_dedup(v), obs=(M, L, obs), nontrivial=nt, stats={'enc_words': 1})
 
 
 def encseq_case(case):
-    """case = ('encseq', M, head symbols tuple, tail alphabet tuple): words = head + (t,) for every t"""
-    _, M, head, tails = case
+    """case = ('encseq', M, head symbols tuple, tail alphabet tuple, strings): words = head + (t,) for every t"""
+    _, M, head, tails, strings = case
     v = Viol()
     obs = []
     for t in tails:
         syms = tuple(head) + (t,)
-        obs.append(enc_dec_one(syms_to_bits(syms, M), M, v, with_dtypes=False))
+        obs.append(enc_dec_one(syms_to_bits(syms, M), M, v, with_dtypes=False, strings=strings))
     return res(viol=_dedup(v), obs=(M, head, tuple(obs)), nontrivial=(M, head, tails), stats={'enc_words': len(tails)})
 
 
 def enclong_case(case):
-    """case = ('enclong', M, nbits, kind, seed): long word; kind in zeros/ones/alt/seeded"""
-    _, M, nbits, kind, seed = case
+    """case = ('enclong', M, nbits, kind, seed, strings): long word; kind in zeros/ones/alt/seeded"""
+    _, M, nbits, kind, seed, strings = case
     if kind == 'zeros':
         bits = [0] * nbits
     elif kind == 'ones':
@@ -200,7 +261,7 @@ def enclong_case(case):
         rs = np.random.RandomState(zlib.crc32(repr(('enclong', M, nbits, kind, seed)).encode()))
         bits = rs.randint(0, 2, nbits).tolist()
     v = Viol()
-    obs = enc_dec_one(bits, M, v, with_dtypes=False)
+    obs = enc_dec_one(bits, M, v, with_dtypes=False, strings=strings)
     return res(viol=_dedup(v), obs=(M, nbits, kind, zlib.crc32(repr(obs).encode())), nontrivial=(M, nbits, kind, seed),
                stats={'enc_words': 1})
 
@@ -425,9 +486,18 @@ def hdd_case(case):
     outcomes, st = explore_hdd(M, syms, max_dev, v)
     bits = syms_to_pattern(syms, M).tolist()
     if 'forms' in extras:
-        for name, obj in container_forms(bits).items():
+        first = None
+        for name, obj in container_forms(bits, group=M).items():
             oc = call_hdd(obj, M, TreeRNG(()))
-            hdd_outcome_oracle(M, syms, oc, f'container form {name}, all answers = first candidate', v)
+            hdd_outcome_oracle(M, syms, oc, f'container form {name} = {obj!r:.120}, all answers = first candidate', v)
+            # same slot sequence + same RNG answers => same result, whatever the container ("all accepted input container
+            # types give the same result")
+            if first is None:
+                first = (name, oc)
+            elif oc != first[1]:
+                v.append((f'HDD:container-forms-differ:{form_family(name)}',
+                          f'M={M} symbols={syms}, all answers = first candidate: form {name} = {obj!r:.120} gives {oc[1:]}, '
+                          f'form {first[0]} gives {first[1][1:]}'))
             st['hdd_form_runs'] = st.get('hdd_form_runs', 0) + 1
     if 'real' in extras and max_dev is None:
         from opticomlib.ppm import HDD
@@ -680,14 +750,17 @@ def sdd_tie_case(case):
 
 
 # =========================================================================== part 4: ValueError clauses
+def ve_bits(length):
+    return [(i * 7 + i // 3) % 2 for i in range(length)]
+
+
 def ve_case(case):
     """case = ('ve', fn, clause, M, length, form, sps): the call must raise ValueError"""
     from opticomlib.ppm import HDD, SDD
     _, fn, clause, M, length, form, sps = case
     v = Viol()
     if fn == 'HDD':
-        bits = [(i * 7 + i // 3) % 2 for i in range(length)]
-        obj = container_forms(bits)[form]
+        obj = container_forms(ve_bits(length), group=M)[form]
         call = lambda: HDD(obj, M)  # noqa
     else:
         gv_reset(sps=sps, R=1e9)
@@ -739,7 +812,7 @@ def hdd_spaces(tier):
            {2: range(1, 9), 4: range(1, 5), 8: range(1, 3), 16: range(1, 2)}
     for M, ns in full.items():
         for n in ns:
-            extras = ('forms', 'real') if n * M <= 8 else ('real',) if n * M <= 12 else ()
+            extras = ('forms', 'real') if n * M <= 12 else ()
             parts.append((f'hdd.full.M{M}.n{n}', [('hdd', M, s, None, extras) for s in all_patterns(M, n)], 300))
     # (b) EVERY slot pattern, deviation-bounded tree (quick only: 13..16 slots; thorough explores these fully above)
     if quick:
@@ -756,7 +829,9 @@ def hdd_spaces(tier):
                 continue
             dev = None if n == 1 else (1 if quick else (None if n == 2 else 1))
             name = f'hdd.kinds.M{M}.n{n}.' + ('full' if dev is None else f'dev{dev}')
-            parts.append((name, [('hdd', M, s, dev, ()) for s in itertools.product(kinds, repeat=n)], 3600 if dev is None else 600))
+            # container forms here as well: the grouped string spellings ('<M slots> <M slots>') of the orders >= 8 need
+            # >= 2 symbols, i.e. more slots than the exhaustive <= 12-slot patterns above have
+            parts.append((name, [('hdd', M, s, dev, ('forms',)) for s in itertools.product(kinds, repeat=n)], 3600 if dev is None else 600))
     long_seq = [(4, 5, 1), (8, 3, 2), (8, 4, 2)] if quick else [(4, 5, 2), (8, 3, None), (8, 4, 2), (8, 5, 2)]
     for M, n, dev in long_seq:
         kinds = symbol_kinds(M)
@@ -768,7 +843,9 @@ def hdd_spaces(tier):
 def enc_spaces(tier, seed):
     quick = tier == 'quick'
     parts = []
-    words = [('enc', M, L, val) for L in range(0, 13) for val in range(2 ** L) for M in ORDERS]
+    # string spellings: every one for every word in the thorough tier; quick: every one up to 8 bits, the core five above
+    bulk = 'core' if quick else 'all'
+    words = [('enc', M, L, val, 'all' if L <= 8 else bulk) for L in range(0, 13) for val in range(2 ** L) for M in ORDERS]
     parts.append(('encdec.words<=12bits', words, 120))
     # every ordered pair / triple of symbol values
     seq = []
@@ -776,19 +853,19 @@ def enc_spaces(tier, seed):
         edge = sorted({0, 1, M // 2 - 1 if M > 2 else 0, M // 2, M - 2 if M > 2 else 0, M - 1})
         tails = tuple(range(M)) if (not quick or M <= 32) else tuple(edge)
         for v1 in range(M):
-            seq.append(('encseq', M, (v1,), tails))
+            seq.append(('encseq', M, (v1,), tails, bulk))
         for v1 in edge:
             for v2 in edge:
-                seq.append(('encseq', M, (v1, v2), tuple(edge)))
+                seq.append(('encseq', M, (v1, v2), tuple(edge), bulk))
     parts.append(('encdec.symbol-sequences', seq, 300))
     longs = []
     for M in ORDERS:
         k = log2i(M)
         for nb in sorted({2000, 2000 + k - 1, 4096 + 1}):
             for kind in ('zeros', 'ones', 'alt'):
-                longs.append(('enclong', M, nb, kind, 0))
+                longs.append(('enclong', M, nb, kind, 0, bulk))
             for j in range(2 if quick else 8):
-                longs.append(('enclong', M, nb, 'seeded', seed * 1000 + j))
+                longs.append(('enclong', M, nb, 'seeded', seed * 1000 + j, bulk))
     parts.append(('encdec.long-words', longs, 300))
     return parts
 
@@ -845,15 +922,20 @@ def ve_spaces(tier):
     quick = tier == 'quick'
     cases = []
     hforms = ['str', 'list', 'tuple', 'ndarray:uint8', 'ndarray:bool', 'binary_sequence']
+
+    def hdd_forms(M, length):
+        # + every separator spelling of the string form that exists for this length (see string_spellings)
+        return hforms + [k for k in string_spellings(ve_bits(length), M) if k != 'str']
+
     for M in NON_POWERS:
         for length in sorted({M, 2 * M, 4 * M, 8, 16, 24}):
-            for form in hforms:
+            for form in hdd_forms(M, length):
                 cases.append(('ve', 'HDD', 'order-not-power-of-two', M, length, form, 0))
     for M in ORDERS:
         ls = range(1, 3 * M) if M <= 8 else (1, M // 2, M - 1, M + 1, 2 * M - 1, 2 * M + 1, 3 * M + M // 2)
         for length in ls:
             if length % M:
-                for form in hforms:
+                for form in hdd_forms(M, length):
                     cases.append(('ve', 'HDD', 'length-not-whole-symbols', M, length, form, 0))
     sforms = ['ndarray', 'electrical_signal', 'electrical_signal+zero-noise']
     for sps in (2, 5, 16):
@@ -887,8 +969,8 @@ REGRESS = [
     # smallest members of each part; run first so that a broken tree reports within a second
     (hdd_case, ('hdd', 2, ((0, 1),), None, ('forms', 'real'))),
     (hdd_case, ('hdd', 4, ((), (1, 2)), None, ('forms', 'real'))),
-    (enc_case, ('enc', 4, 2, 0b01)),          # one 4-ary symbol: bit order
-    (enc_case, ('enc', 2, 2, 0b01)),          # two binary symbols: position modulo M
+    (enc_case, ('enc', 4, 2, 0b01, 'all')),          # one 4-ary symbol: bit order
+    (enc_case, ('enc', 2, 2, 0b01, 'all')),          # two binary symbols: position modulo M
     (sdd_dac_case, ('sdddac', 2, 2, 'nrz', (1,))),
     (sdd_dac_case, ('sdddac', 4, 2, 'rz', (1, 3))),
 ]
